@@ -1,5 +1,5 @@
 """C04 Numbers survive conversion between text and binary exactly - overflow guards, sign limits, event kind vs conversion result."""
-from .. import frontend as F, ast as A, cfg as C, util as U, guards as G, peval as P
+from .. import frontend as F, ast as A, cfg as C, util as U, guards as G, peval as P, inline as I
 from . import c05
 
 EXPLANATION = ('(R04.1) in every digit-accumulation of the integer readers (dec_to_integer, to_integer, hex_to_integer; all instantiations) each '
@@ -183,46 +183,85 @@ def r04_2(chk, facts):
     chk.require(n >= 2, 'R04.2: only %d signed wrappers found' % n)
 
 def r04_3(chk, facts):
-    chk.rule('R04.3', 'JSON parser: int64_value/uint64_value only under success of dec_to_integer; on overflow a bigint-tagged string under '
+    chk.rule('R04.3', 'JSON parser: int64_value/uint64_value only under success of dec_to_integer into a variable of the matching signedness, '
+                      'the signed conversion only for a text that starts with `-`; on overflow a bigint-tagged string under '
                       'lossless_bignum_; fractions a bigdec-tagged string under lossless_number_', floor=3)
-    for name, ev in (('end_negative_value', 'int64_value'), ('end_positive_value', 'uint64_value')):
-        for fn in U.one_per_inst(U.functions(facts, cls='basic_json_parser', name=name)):
-            chk.analysed(fn)
-            g = C.CFG(fn['body'])
-            ok_ev = ok_big = False; bad = None
-            for nd in g.rpo:
-                if nd.kind not in ('stmt',) or not isinstance(nd.ast, dict): continue
-                for c in A.calls_in(nd.ast):
-                    cn = A.callee_name(c)
-                    if cn in ('int64_value', 'uint64_value'):
-                        gs = [(A.text(a), lab) for a, lab, e in g.guards(nd)]
-                        if any('result' in t and 'operator bool' in t and lab is True for t, lab in gs) and cn == ev: ok_ev = True
-                        else: bad = 'integer event %s emitted without a dominating success test of dec_to_integer' % cn
-                    if cn == 'string_value':
-                        args = [A.text(a) for a in (c.get('args') or [])]
-                        gs = [(A.text(a), lab) for a, lab, e in g.guards(nd)]
-                        # exactness: between the failed conversion and the bigint event the only condition is lossless_bignum_
-                        chain = []
-                        for t, lab in gs:
-                            if 'result' in t: chain.append(('result', lab)); break
-                            chain.append((t, lab))
-                        if any('bigint' in a for a in args) and chain == [('lossless_bignum_', True), ('result', False)]: ok_big = True
-                        elif any('bigint' in a for a in args): bad = 'the bigint fallback is under %s instead of exactly `!result && lossless_bignum_`' % chain
-            site = U.site(fn, 'event kind')
-            if ok_ev and ok_big and not bad: chk.ok('R04.3', site, {'function': fn['q']})
-            else: chk.fail('R04.3', site, fn['file'], fn['l'], bad or '%s: integer event under success=%s, bigint string under overflow && lossless_bignum_=%s' % (name, ok_ev, ok_big), None, fn['q'])
-    for fn in U.one_per_inst(U.functions(facts, cls='basic_json_parser', name='end_fraction_value')):
+    EV = ('int64_value', 'uint64_value', 'string_value', 'double_value')
+    def emits(callee, call=None): return any(A.is_call(c) and A.callee_name(c) in EV for c in A.walk_no_lambda(callee['body']))
+    allf = [f for f in U.functions(facts, cls='basic_json_parser') if f.get('body') is not None and not f.get('dep')]
+    seen = set(); kinds = set()
+    for fn0 in allf:
+        convs = [c for c in A.walk_no_lambda(fn0['body']) if A.is_call(c) and A.callee_name(c) == 'dec_to_integer' and len(c.get('args') or []) >= 3]
+        if not convs: continue
+        conv = convs[0]
+        ity = F.tname(fn0, conv['args'][2].get('t')).replace('const ', '').strip()
+        signed = not (ity.startswith('unsigned') or ity.startswith('uint') or ity in ('size_t', 'std::size_t'))
+        key = (fn0['file'], fn0['l'], signed)
+        if key in seen: continue
+        seen.add(key)
+        chk.analysed(fn0)
+        fn = I.expand(facts, fn0, allow=emits, depth=2)
+        # the variable that receives the conversion result
+        rn = None
+        for x in A.walk_no_lambda(fn0['body']):
+            if x.get('k') == 'VarDecl' and x.get('init') is not None and any(y is conv for y in A.walk(x['init'])): rn = x.get('n')
+        rn = rn or 'result'
+        want = 'int64_value' if signed else 'uint64_value'
+        g = C.CFG(fn['body'])
+        ok_ev = ok_big = False; bad = None
+        def is_res(t): return rn in t and 'operator bool' in t
+        for nd in g.rpo:
+            if nd.kind not in ('stmt',) or not isinstance(nd.ast, dict): continue
+            for c in A.calls_in(nd.ast):
+                cn = A.callee_name(c)
+                if cn in ('int64_value', 'uint64_value'):
+                    gs = [(A.text(a), lab) for a, lab, e in g.guards(nd)]
+                    if any(is_res(t) and lab is True for t, lab in gs) and cn == want: ok_ev = True
+                    elif cn != want: bad = 'a number parsed into `%s` is reported as %s' % (ity, cn)
+                    else: bad = 'integer event %s emitted without a dominating success test of dec_to_integer' % cn
+                if cn == 'string_value':
+                    args = [A.text(a) for a in (c.get('args') or [])]
+                    gs = [(A.text(a), lab) for a, lab, e in g.guards(nd)]
+                    # exactness: between the failed conversion and the bigint event the only condition is lossless_bignum_
+                    chain = []
+                    for t, lab in gs:
+                        if is_res(t): chain.append(('result', lab)); break
+                        chain.append((t, lab))
+                    if any('bigint' in a for a in args) and chain == [('lossless_bignum_', True), ('result', False)]: ok_big = True
+                    elif any('bigint' in a for a in args): bad = 'the bigint fallback is under %s instead of exactly `!result && lossless_bignum_`' % chain
+        # the signed conversion is chosen exactly for a text that starts with '-'
+        for caller in allf:
+            if caller['file'] != fn0['file'] or bad: continue
+            calls = [c for c in A.walk_no_lambda(caller['body']) if A.is_call(c) and facts.callee(caller, c) is fn0]
+            if not calls: continue
+            cg = C.CFG(caller['body'])
+            for c in calls:
+                nd = cg.node_of(c)
+                if nd is None: continue
+                tests = []
+                for a, lab, e in cg.guards(nd):
+                    cmp_ = G.comparison(a)
+                    if cmp_ and cmp_[0] in ('==', '!=') and (A.const(cmp_[2]) == 0x2d or A.const(cmp_[1]) == 0x2d):
+                        tests.append(lab if cmp_[0] == '==' else (not lab))
+                if tests and tests[0] != signed:
+                    bad = 'the %s conversion is selected in %s for a text that %s with `-`' % ('signed' if signed else 'unsigned', caller['n'], 'does not start' if signed else 'starts')
+        site = U.site(fn0, 'integer event (%s)' % ('signed' if signed else 'unsigned'))
+        if ok_ev and ok_big and not bad:
+            chk.ok('R04.3', site, {'function': fn0['q'], 'integer_type': ity}); kinds.add(signed)
+        else: chk.fail('R04.3', site, fn0['file'], fn0['l'], bad or '%s: integer event under success=%s, bigint string under overflow && lossless_bignum_=%s' % (fn0['n'], ok_ev, ok_big), None, fn0['q'])
+    chk.require(len(seen) >= 2 and {True, False} <= set(k[2] for k in seen), 'R04.3: signed and unsigned integer conversion sites of basic_json_parser not both found (%d sites)' % len(seen))
+    nfrac = 0
+    for fn in U.one_per_inst(allf):
+        evs = [c for c in A.walk_no_lambda(fn['body']) if A.is_call(c) and A.callee_name(c) == 'string_value' and any('bigdec' in A.text(a) for a in (c.get('args') or []))]
+        if not evs: continue
+        nfrac += 1
         chk.analysed(fn)
         g = C.CFG(fn['body'])
-        ok = False
-        for nd in g.rpo:
-            if nd.kind == 'stmt' and isinstance(nd.ast, dict):
-                for c in A.calls_in(nd.ast):
-                    if A.callee_name(c) == 'string_value' and any('bigdec' in A.text(a) for a in (c.get('args') or [])):
-                        if any(A.text(a) == 'lossless_number_' and lab is True for a, lab, e in g.guards(nd)): ok = True
+        ok = any(any(A.text(a) == 'lossless_number_' and lab is True for a, lab, e in g.guards(g.node_of(c))) for c in evs if g.node_of(c) is not None)
         site = U.site(fn, 'bigdec')
         if ok: chk.ok('R04.3', site, {'function': fn['q']})
-        else: chk.fail('R04.3', site, fn['file'], fn['l'], 'end_fraction_value does not emit a bigdec string under lossless_number_', None, fn['q'])
+        else: chk.fail('R04.3', site, fn['file'], fn['l'], '%s does not emit a bigdec string under `lossless_number_`' % fn['n'], None, fn['q'])
+    chk.require(nfrac >= 1, 'R04.3: no bigdec-tagged string event found in basic_json_parser')
 
 def r04_4(chk, facts):
     """Multi-word addition/subtraction of basic_bigint: every wrapping word operation feeds the carry/borrow."""
